@@ -31,7 +31,8 @@ def run(R, replay=None):
     R.rule = ("finite registry enumerated completely: every plugin and blacklist rule (id, name) looked up through the real "
               "manager vs the model; every published (id, qualified name, severity) triggered by a generated program; one "
               "triggering example program per ID re-scanned with the check named by ID and by name in nosec comments, legacy "
-              "profiles and -t/-s; non-trivial = every case (each names a distinct registered rule)")
+              "profiles and -t/-s; non-trivial = every case (each names a distinct registered rule)"
+              "; links in html/csv/txt reports; every registered name resolved in a fresh process after a report was written")
     R.exhaustive = True
     # ---- unit correspondence: token -> id resolution on ids, names, and junk
     rows = [(p.plugin._test_id, p.name) for p in man.plugins]
